@@ -187,6 +187,9 @@ def oracle_C18(run):
         if r[0] != 'exc' or not is_protocol_error(obs):
             continue
         app = obs.get('appended')
+        if app is None:
+            # a GOAWAY received earlier in the same call cleared the buffer: what is in it now was written after that
+            app = obs['outbuf']
         fr = frames_of(app)
         if not client[c]:
             seen = rx[c]
